@@ -614,3 +614,51 @@ package utreexo
 //@   loop 4: invariant forall k in all: 0 <= createHeights[k] && createHeights[k] < len(cachingSch)
 //@   loop 5: invariant len(cache) == iterlen_5 && len(cache) <= maxMemory
 //@   loop 5: invariant forall k in all: 0 <= createHeights[k] && createHeights[k] < len(cachingSch)
+
+// Further helpers of the caching schedule (C15), the cached-proof update / undo (C07, C08) and the proof algebra (C14)
+// under safety and length contracts: the root-info twins of Stump.add / rootsToDestory keep len(roots) == popcount(numLeaves)
+// (so the pops never run dry), deTwinHashAndPos and getNewPositions keep positions and hashes parallel and terminate,
+// mergeSortedSlicesFunc (verified at its uint64 instantiation) never indexes out of range.
+
+//@ func rootInfoToDestroy(totalRows uint8, numAdds uint64, numLeaves uint64, origRoots []rootInfo) (res []uint64)
+//@   requires len(origRoots) == int(popcount(numLeaves)) && numAdds <= 18446744073709551615 - numLeaves && numAdds < pow2(62)
+//@   loop 2: invariant len(roots) == int(popcount(numLeaves))
+//@   loop 2: invariant numLeaves == old(numLeaves) + i && i <= numAdds
+//@   loop 3: invariant len(roots) + int(h) == int(popcount(numLeaves)) && lowOnes(numLeaves, h) && h <= 63 && numLeaves < 18446744073709551615
+//@   loop 3: use popcount_succ(numLeaves, h)
+//@   loop 3: use popcount_lowones(numLeaves, h)
+//@   loop 3: decreases 64 - int(h)
+//@   loop 2: decreases int(numAdds - i)
+
+//@ func addRootInfo(totalRows uint8, origRoots []rootInfo, numAdds uint16, numLeaves uint64) (res []rootInfo, n uint64)
+//@   requires len(origRoots) == int(popcount(numLeaves)) && uint64(numAdds) <= 18446744073709551615 - numLeaves
+//@   ensures len(res) == int(popcount(n)) && n == numLeaves + uint64(numAdds)
+//@   loop 1: invariant len(roots) == int(popcount(numLeaves)) && 0 <= i && i <= int(numAdds) && numLeaves == old(numLeaves) + uint64(i)
+//@   loop 2: invariant len(roots) + int(h) == int(popcount(numLeaves)) && lowOnes(numLeaves, h) && h <= 63 && numLeaves < 18446744073709551615 && numLeaves == old(numLeaves) + uint64(i) && 0 <= i && i < int(numAdds)
+//@   loop 2: use popcount_succ(numLeaves, h)
+//@   loop 2: use popcount_lowones(numLeaves, h)
+//@   loop 2: decreases 64 - int(h)
+//@   loop 1: decreases int(numAdds) - i
+
+//@ func delRootInfo(totalRows uint8, origRoots []rootInfo, targets []uint64) (res []rootInfo)
+//@   modifies origRoots
+//@   ensures len(res) == len(origRoots)
+
+//@ func deTwinHashAndPos(hnp hashAndPos, forestRows uint8) (res hashAndPos)
+//@   requires len(hnp.positions) == len(hnp.hashes)
+//@   ensures len(res.positions) == len(res.hashes) && len(res.positions) <= len(hnp.positions)
+//@   loop 1: invariant 0 <= i && len(hnp.positions) == len(hnp.hashes) && len(hnp.positions) <= old(len(hnp.positions))
+//@   loop 1: decreases len(hnp.positions) - i
+
+//@ func mergeSortedSlicesFunc(a []uint64, b []uint64, cmp func(uint64, uint64) int) (c []uint64)
+//@   ensures len(c) <= len(a) + len(b) && len(c) >= len(a) && len(c) >= len(b)
+//@   loop 1: invariant 0 <= idxa && idxa <= maxa && 0 <= idxb && idxb <= maxb && 0 <= j && j <= idxa + idxb
+//@   loop 1: invariant maxa == len(a) && maxb == len(b) && len(c) == maxa + maxb && idxa <= j && idxb <= j
+//@   loop 1: decreases maxa + maxb - j
+
+//@ func getNewPositions(blockTargets []uint64, slice hashAndPos, numLeaves uint64, appendRoots bool) (res hashAndPos)
+//@   requires len(slice.positions) == len(slice.hashes) && numLeaves <= pow2(63)
+//@   ensures len(res.positions) == len(res.hashes) && len(res.positions) <= len(slice.positions)
+//@   loop 1: invariant len(newSlice.positions) == len(newSlice.hashes) && len(newSlice.positions) <= iter_1 && row <= totalRows + 1 && totalRows <= 64
+//@   loop 2: invariant row <= totalRows + 1 && totalRows <= 64
+//@   loop 2: decreases int(totalRows) + 1 - int(row)
